@@ -355,6 +355,31 @@ fn malformed_menu(server: bool, thorough: bool) -> Vec<(u32, u8, Vec<u8>)> {
         v.push((1, t, vec![]));
         v.push((1, t, vec![0xAF, 1, 2]));
     }
+    // long non-ASCII text in every string position a session looks at (every fixed cut offset falls inside a
+    // character in one of them): application names, stream keys, modes, status codes, metadata strings
+    for text in super::amf0::straddlers() {
+        let t = V::Str(text.clone());
+        if server {
+            v.push((0, 20, enc(&[s("connect"), num(1.0), V::Obj(vec![("app".into(), t.clone())])])));
+            v.push((0, 20, enc(&[s("connect"), num(1.0), V::Obj(vec![("app".into(), s("a")), ("tcUrl".into(), t.clone()), ("flashVer".into(), t.clone())])])));
+            v.push((1, 20, enc(&[s("publish"), num(0.0), V::Null, t.clone(), s("live")])));
+            v.push((1, 20, enc(&[s("publish"), num(0.0), V::Null, s("k"), t.clone()])));
+            v.push((1, 20, enc(&[s("play"), num(0.0), V::Null, t.clone()])));
+            v.push((1, 20, enc(&[s("releaseStream"), num(2.0), V::Null, t.clone()])));
+            v.push((1, 18, enc(&[s("@setDataFrame"), s("onMetaData"), V::Obj(vec![("encoder".into(), t.clone()), ("width".into(), num(1.0))])])));
+            v.push((1, 18, enc(&[s("@setDataFrame"), t.clone(), V::Obj(vec![])])));
+        } else {
+            v.push((0, 20, enc(&[s("_result"), num(1.0), V::Null, V::Obj(vec![("description".into(), t.clone()), ("code".into(), t.clone())])])));
+            v.push((1, 20, enc(&[s("onStatus"), num(0.0), V::Null, V::Obj(vec![("code".into(), t.clone())])])));
+            v.push((1, 20, enc(&[s("onStatus"), num(0.0), V::Null, V::Obj(vec![("code".into(), s("NetStream.Play.Start")), ("description".into(), t.clone())])])));
+            v.push((1, 18, enc(&[s("onMetaData"), V::Obj(vec![("encoder".into(), t.clone())])])));
+            v.push((1, 20, enc(&[t.clone(), num(0.0), V::Null])));
+        }
+        // as a property NAME too
+        if text.len() <= 65_535 {
+            v.push((1, 18, enc(&[s(first), s("onMetaData"), V::Obj(vec![(text.clone(), num(1.0))])])));
+        }
+    }
     v
 }
 
@@ -665,6 +690,24 @@ pub fn run(run: &Run) {
                 } else {
                     for b in [0u8, 1, 2, 3, 9, 0xFF] {
                         check(&[a, b]);
+                    }
+                }
+            }
+            if [15u8, 17, 18, 20].contains(&t) {
+                // every AMF0 marker byte followed by a maximal / large length or count field, bare and as the
+                // fourth value of a command
+                for m in 0..=255u8 {
+                    for field in [&[0xFFu8, 0xFF, 0xFF, 0xFF][..], &[0x10, 0, 0, 0][..], &[0xFF, 0xFF][..], &[0, 0xFF, 0xFF, 0xFF][..]] {
+                        let mut b: Vec<u8> = if t == 17 || t == 15 { vec![0] } else { vec![] };
+                        b.push(m);
+                        b.extend_from_slice(field);
+                        b.extend_from_slice(b"abc");
+                        check(&b);
+                        let mut c: Vec<u8> = if t == 17 || t == 15 { vec![0] } else { vec![] };
+                        c.extend_from_slice(&[2, 0, 1, b'x', 0, 0x3F, 0xF0, 0, 0, 0, 0, 0, 0, 5, m]);
+                        c.extend_from_slice(field);
+                        c.extend_from_slice(b"abc");
+                        check(&c);
                     }
                 }
             }
